@@ -188,7 +188,18 @@ impl Axecutor {
                         segment.p_offset,
                     );
 
-                    let memsz = round_up_to_page_size(segment.p_memsz);
+                    // The area ends at the end of the last page the segment touches.
+                    // Rounding only the size would make a segment with an unaligned p_vaddr reach into the following page
+                    let memsz = match segment.p_vaddr.checked_add(segment.p_memsz) {
+                        Some(end) if end <= u64::MAX - 0xfff => {
+                            round_up_to_page_size(end) - segment.p_vaddr
+                        }
+                        _ => {
+                            return Err(AxError::from(
+                                "ELF: Segment does not fit into the address space",
+                            ))
+                        }
+                    };
 
                     if memsz == segment.p_filesz {
                         axecutor.mem_init_area_named(
